@@ -26,6 +26,12 @@
                    released - although its command is still with the controller; the late
                    response then goes to whoever is pending by then, or is dropped.
 
+     Lose          Host.on_transport_lost (fix D16k): transport_lost is set and, if a response is
+                   still awaited, TransportLostError is set on the future (the owner then runs its
+                   finally with response = None).  From then on a caller that acquires the semaphore
+                   releases it at once and fails with TransportLostError: nothing is sent any more.
+                   (set_packet_source, which clears the flag, is not modelled.)
+
    The semaphore is its counter of free permits (1 initially; a stray release can make it 2);
    which waiting caller obtains a free permit is left to the schedule (asyncio hands it over in
    FIFO order: one of the schedules), `locked()` is "no permit or somebody queued" as in CPython.
@@ -34,7 +40,7 @@ From Coq Require Import ZArith List Bool.
 Import ListNotations.
 Open Scope Z_scope.
 
-Inductive phase := WaitSem | WaitResp | Done (r : Z) | Failed | Cancelled.
+Inductive phase := WaitSem | WaitResp | Done (r : Z) | Failed | Cancelled | LostFail.
 Record caller := mkCaller { c_id : Z; c_op : Z; c_phase : phase }.
 
 (* an event from the controller: Command Complete?, command_opcode, num_hci_command_packets *)
@@ -47,7 +53,8 @@ Record hstate := mkH {
   h_resp : option (Z * Z);         (* result set on pending_response: (command_opcode, credits) *)
   h_to : list Z;                   (* host -> controller: opcodes of commands in flight *)
   h_from : list event;             (* controller -> host: events in flight *)
-  h_err : bool                     (* an event hit an already completed future (InvalidStateError) *)
+  h_err : bool;                    (* an event hit an already completed future (InvalidStateError) *)
+  h_lost : bool                    (* Host.transport_lost: on_transport_lost was called *)
 }.
 
 Inductive label :=
@@ -58,12 +65,16 @@ Inductive label :=
 | CtrlEvent (cc : bool) (op n : Z)
 | Deliver
 | Resume (c : Z)
-| Cancel (c : Z).
+| Cancel (c : Z)
+| Lose.
 
 (* what an observer at the HCI boundary / at the awaitables sees *)
-Inductive obs := Sent (c op : Z) | Resumed (c op : Z) | AssertFailed (c : Z) | WasCancelled (c : Z).
+Inductive obs := Sent (c op : Z) | Resumed (c op : Z) | AssertFailed (c : Z) | WasCancelled (c : Z) | LostFailed (c : Z).
 
-Definition h_init : hstate := mkH [] 1 None None [] [] false.
+(* the result of the future when it carries an exception instead of an event (opcodes are >= 0) *)
+Definition exc_code : Z := -1.
+
+Definition h_init : hstate := mkH [] 1 None None [] [] false false.
 
 Definition is_wait_sem (x : caller) : bool := match c_phase x with WaitSem => true | _ => false end.
 Definition has_id (c : Z) (x : caller) : bool := Z.eqb (c_id x) c.
@@ -76,8 +87,8 @@ Definition set_phase (c : Z) (ph : phase) (l : list caller) : list caller :=
 
 Definition known (c : Z) (l : list caller) : bool := existsb (has_id c) l.
 
-Definition with_callers (s : hstate) l := mkH l (h_sem s) (h_pending s) (h_resp s) (h_to s) (h_from s) (h_err s).
-Definition with_sem (s : hstate) b := mkH (h_callers s) b (h_pending s) (h_resp s) (h_to s) (h_from s) (h_err s).
+Definition with_callers (s : hstate) l := mkH l (h_sem s) (h_pending s) (h_resp s) (h_to s) (h_from s) (h_err s) (h_lost s).
+Definition with_sem (s : hstate) b := mkH (h_callers s) b (h_pending s) (h_resp s) (h_to s) (h_from s) (h_err s) (h_lost s).
 
 (* `if event.num_hci_command_packets and self.command_semaphore.locked(): release()` *)
 (* Semaphore.locked(): no free permit, or somebody is queued *)
@@ -95,35 +106,39 @@ Definition step_opt (s : hstate) (l : label) : option (hstate * list obs) :=
       match find_waiting c (h_callers s) with
       | None => None
       | Some x =>
+          if h_lost s then
+            (* `if self.transport_lost: release(); raise TransportLostError` right after the acquire *)
+            Some (with_callers s (set_phase c LostFail (h_callers s)), [LostFailed c])
+          else
           match h_pending s, h_resp s with
           | None, None =>
               Some (mkH (set_phase c WaitResp (h_callers s)) (h_sem s - 1) (Some (c, c_op x)) None
-                        (h_to s ++ [c_op x]) (h_from s) (h_err s), [Sent c (c_op x)])
+                        (h_to s ++ [c_op x]) (h_from s) (h_err s) (h_lost s), [Sent c (c_op x)])
           | _, _ =>
               (* `assert self.pending_command is None` fails before the try block:
                  the semaphore stays held *)
               Some (mkH (set_phase c Failed (h_callers s)) (h_sem s - 1) (h_pending s) (h_resp s)
-                        (h_to s) (h_from s) (h_err s), [AssertFailed c])
+                        (h_to s) (h_from s) (h_err s) (h_lost s), [AssertFailed c])
           end
       end
   | CtrlReply cc n =>
       match h_to s with
       | [] => None
       | op :: rest =>
-          Some (mkH (h_callers s) (h_sem s) (h_pending s) (h_resp s) rest (h_from s ++ [(cc, op, n)]) (h_err s), [])
+          Some (mkH (h_callers s) (h_sem s) (h_pending s) (h_resp s) rest (h_from s ++ [(cc, op, n)]) (h_err s) (h_lost s), [])
       end
   | CtrlDrop =>
       match h_to s with
       | [] => None
-      | _ :: rest => Some (mkH (h_callers s) (h_sem s) (h_pending s) (h_resp s) rest (h_from s) (h_err s), [])
+      | _ :: rest => Some (mkH (h_callers s) (h_sem s) (h_pending s) (h_resp s) rest (h_from s) (h_err s) (h_lost s), [])
       end
   | CtrlEvent cc op n =>
-      Some (mkH (h_callers s) (h_sem s) (h_pending s) (h_resp s) (h_to s) (h_from s ++ [(cc, op, n)]) (h_err s), [])
+      Some (mkH (h_callers s) (h_sem s) (h_pending s) (h_resp s) (h_to s) (h_from s ++ [(cc, op, n)]) (h_err s) (h_lost s), [])
   | Deliver =>
       match h_from s with
       | [] => None
       | (cc, op, n) :: rest =>
-          let s1 := mkH (h_callers s) (h_sem s) (h_pending s) (h_resp s) (h_to s) rest (h_err s) in
+          let s1 := mkH (h_callers s) (h_sem s) (h_pending s) (h_resp s) (h_to s) rest (h_err s) (h_lost s) in
           if cc && Z.eqb op 0 then
             (* on_hci_command_complete_event: flow control only *)
             Some (release_if s1 n, [])
@@ -131,8 +146,8 @@ Definition step_opt (s : hstate) (l : label) : option (hstate * list obs) :=
             match h_pending s1 with
             | Some _ =>
                 match h_resp s1 with
-                | None => Some (mkH (h_callers s1) (h_sem s1) (h_pending s1) (Some (op, n)) (h_to s1) rest (h_err s1), [])
-                | Some _ => Some (mkH (h_callers s1) (h_sem s1) (h_pending s1) (h_resp s1) (h_to s1) rest true, [])
+                | None => Some (mkH (h_callers s1) (h_sem s1) (h_pending s1) (Some (op, n)) (h_to s1) rest (h_err s1) (h_lost s1), [])
+                | Some _ => Some (mkH (h_callers s1) (h_sem s1) (h_pending s1) (h_resp s1) (h_to s1) rest true (h_lost s1), [])
                 end
             | None => Some (release_if s1 n, [])
             end
@@ -142,7 +157,7 @@ Definition step_opt (s : hstate) (l : label) : option (hstate * list obs) :=
       | Some (c', _) =>
           if Z.eqb c' c then
             (* the owner: `finally` with response = None *)
-            Some (mkH (set_phase c Cancelled (h_callers s)) (h_sem s + 1) None None (h_to s) (h_from s) (h_err s),
+            Some (mkH (set_phase c Cancelled (h_callers s)) (h_sem s + 1) None None (h_to s) (h_from s) (h_err s) (h_lost s),
                   [WasCancelled c])
           else
             match find_waiting c (h_callers s) with
@@ -155,11 +170,20 @@ Definition step_opt (s : hstate) (l : label) : option (hstate * list obs) :=
           | None => None
           end
       end
+  | Lose =>
+      Some (mkH (h_callers s) (h_sem s) (h_pending s)
+                (match h_pending s, h_resp s with Some _, None => Some (exc_code, 0) | _, r => r end)
+                (h_to s) (h_from s) (h_err s) true, [])
   | Resume c =>
       match h_pending s, h_resp s with
       | Some (c', _), Some (op, n) =>
           if Z.eqb c' c then
-            let s1 := mkH (set_phase c (Done op) (h_callers s)) (h_sem s) None None (h_to s) (h_from s) (h_err s) in
+            if Z.eqb op exc_code then
+              (* the future carries TransportLostError: finally with response = None releases *)
+              Some (mkH (set_phase c LostFail (h_callers s)) (h_sem s + 1) None None (h_to s) (h_from s) (h_err s)
+                        (h_lost s), [LostFailed c])
+            else
+            let s1 := mkH (set_phase c (Done op) (h_callers s)) (h_sem s) None None (h_to s) (h_from s) (h_err s) (h_lost s) in
             Some (release_if s1 n, [Resumed c op])
           else None
       | _, _ => None
@@ -194,7 +218,7 @@ Definition label_ok (l : label) : bool :=
   | CtrlReply _ n => Z.leb 1 n
   | CtrlDrop => false
   | CtrlEvent _ _ _ => false
-  | Call _ op => negb (Z.eqb op 0)
+  | Call _ op => Z.ltb 0 op                (* opcodes are positive: 0 is the flow-control event *)
   | _ => true
   end.
 Definition contract_ok (ls : list label) : bool := forallb label_ok ls.
@@ -211,11 +235,17 @@ Definition cancel_ok (s : hstate) (l : label) : bool :=
   | _ => true
   end.
 
+(* once the transport is lost nothing crosses it any more *)
+Definition lost_ok (s : hstate) (l : label) : bool :=
+  if h_lost s then
+    match l with CtrlReply _ _ | CtrlDrop | CtrlEvent _ _ _ | Deliver => false | _ => true end
+  else true.
+
 (* the hypotheses of the theorems, checked along the run *)
 Fixpoint wf_run (s : hstate) (ls : list label) : bool :=
   match ls with
   | [] => true
-  | l :: ls' => label_ok l && cancel_ok s l && wf_run (step s l) ls'
+  | l :: ls' => label_ok l && cancel_ok s l && lost_ok s l && wf_run (step s l) ls'
   end.
 
 (* commands handed to the controller whose answer has not reached the host *)
@@ -233,9 +263,17 @@ Definition quiescent (s : hstate) : bool :=
   | _, _ => false
   end.
 
-(* answered with the response to its own command, or cancelled by its own task *)
+(* answered with the response to its own command, cancelled by its own task, or failed with
+   TransportLostError *)
+(* after a loss nothing moves in the FIFOs: only the host's own steps count *)
+Definition quiescent_lost (s : hstate) : bool :=
+  match h_pending s, h_resp s with
+  | Some _, Some _ => false
+  | _, _ => Z.leb (h_sem s) 0 || negb (existsb is_wait_sem (h_callers s))
+  end.
+
 Definition is_done_own (x : caller) : bool :=
-  match c_phase x with Done r => Z.eqb r (c_op x) | Cancelled => true | _ => false end.
+  match c_phase x with Done r => Z.eqb r (c_op x) | Cancelled => true | LostFail => true | _ => false end.
 Definition all_answered (s : hstate) : bool := forallb is_done_own (h_callers s).
 
 (* progress measure: steps a caller still needs *)
@@ -249,12 +287,12 @@ Definition measure (s : hstate) : nat :=
 (* encodings for the harness *)
 Definition obs_code (o : obs) : Z * Z * Z :=
   match o with
-  | Sent c op => (0, c, op) | Resumed c op => (1, c, op) | AssertFailed c => (2, c, 0) | WasCancelled c => (3, c, 0)
+  | Sent c op => (0, c, op) | Resumed c op => (1, c, op) | AssertFailed c => (2, c, 0) | WasCancelled c => (3, c, 0) | LostFailed c => (4, c, 0)
   end.
 Definition phase_code (x : caller) : Z * Z * Z :=
   match c_phase x with
   | WaitSem => (c_id x, 0, 0) | WaitResp => (c_id x, 1, 0) | Done r => (c_id x, 2, r) | Failed => (c_id x, 3, 0)
-  | Cancelled => (c_id x, 4, 0)
+  | Cancelled => (c_id x, 4, 0) | LostFail => (c_id x, 5, 0)
   end.
 Definition accept_obs (ls : list label) :=
   match accept h_init ls with
